@@ -37,9 +37,12 @@ VARIABLES
     snapq,   \* client -> group -> in-memory snapshot queue (EpochSnapshotManager)
     hyd,     \* client -> set of groups hydrated since the last (re)start
     withdrawn, \* events created but never published (pending commit cleared before publication)
+    wl,      \* welcome name -> [g, to, chain, commit, inviter]: invitations produced by add commits
+    welc,    \* client -> (welcome name -> "pending" | "accepted" | "declined"): stored welcomes
+    pwelc,   \* client -> (welcome name -> "processed" | "failed"): processed-welcome records
     hist     \* history / observation variables (never read by actions; hidden by VIEW in MC)
 
-vars == <<ginfo, ev, cl, proc, msgs, snapq, hyd, withdrawn, hist>>
+vars == <<ginfo, ev, cl, proc, msgs, snapq, hyd, withdrawn, wl, welc, pwelc, hist>>
 
 NoE == ""          \* "no event"
 NoEpoch == -1      \* "epoch unknown"
@@ -163,7 +166,10 @@ RollbackTo(cs, g, n) ==
 (* Commit effects                                                           *)
 
 \* proposals queued by reference contribute their effect to the commit that sweeps them up
-PropRemoves(P) == {ev[p].target : p \in {q \in P : ev[q].pkind \in {"leave", "remove"}}}
+\* a queued proposal is identified by its content (two leave events of one member in one epoch are
+\* the same MLS proposal: deterministic signature, same ProposalRef)
+Pid(e) == [a |-> ev[e].author, k |-> ev[e].pkind, t |-> ev[e].target]
+PropRemoves(P) == {p.t : p \in {q \in P : q.k \in {"leave", "remove"}}}
 
 ApplyEff(gs0, eff, P) ==
     LET m1 == (gs0.members \cup eff.add) \ (eff.rem \cup PropRemoves(P)) IN
@@ -234,12 +240,13 @@ ProcProposal(cs, c, e, g, recEpoch, nm) ==
         cur == Cur(cs, g)
         amAdmin == c \in MlsState(cs, g).admins IN
     CASE E.pkind \in {"add", "remove"} \/ (E.pkind = "leave" /\ ~amAdmin) ->
-            Ret(SetProc([cs EXCEPT !.g[g].props = @ \cup {e}], e, "processed", g, cur), "PendingProposal")
+            Ret(SetProc([cs EXCEPT !.g[g].props = @ \cup {Pid(e)}], e, "processed", g, cur), "PendingProposal")
       [] E.pkind = "leave" /\ amAdmin ->
-            IF cs.g[g].pend # NoE
-            THEN \* commit_to_pending_proposals fails: a pending commit exists; proposal stays queued
-                 FailUnprocessable([cs EXCEPT !.g[g].props = @ \cup {e}], e, g, recEpoch)
-            ELSE LET cs1 == [cs EXCEPT !.g[g].props = @ \cup {e}]
+            IF cs.g[g].pend # NoE \/ c \in PropRemoves(cs.g[g].props \cup {Pid(e)})
+            THEN \* commit_to_pending_proposals fails (a pending commit exists, or the queue holds the
+                 \* committer's own removal); the proposal stays queued although the call is refused
+                 FailUnprocessable([cs EXCEPT !.g[g].props = @ \cup {Pid(e)}], e, g, recEpoch)
+            ELSE LET cs1 == [cs EXCEPT !.g[g].props = @ \cup {Pid(e)}]
                      cs2 == [cs1 EXCEPT !.g[g].pend = nm.name,
                                         !.out = Append(@, [name |-> nm.name, kind |-> "commit", g |-> g, author |-> c,
                                                            parent |-> cs.g[g].chain, ts |-> nm.ts, rank |-> nm.rank,
@@ -282,7 +289,8 @@ RECURSIVE Process(_, _, _, _, _)
 
 \* W: epoch mismatch
 ProcWrongEpoch(cs, c, e, g, recEpoch, nm, n) ==
-    IF IsBetterCandidate(cs, g, n, e) /\ HasStored(cs, g, SnapIdx(cs, g, n))
+    IF (ev[e].kind = "commit" \/ "StaleHandshakeRollback" \in Dev)       \* only commits compete for an epoch
+       /\ IsBetterCandidate(cs, g, n, e) /\ HasStored(cs, g, SnapIdx(cs, g, n))
     THEN LET cs1 == RollbackTo(cs, g, n)
              inv == {k \in DOMAIN cs1.msgs : k[1] = g /\ cs1.msgs[k].epoch > n}
              cs2 == [cs1 EXCEPT !.msgs = [k \in DOMAIN @ |-> IF k \in inv THEN [@[k] EXCEPT !.state = "epoch_invalidated"] ELSE @[k]]]
@@ -338,16 +346,15 @@ Process(cs, c, e, nm, first) ==
     THEN IF E.kind = "commit" /\ gsS.pend # NoE
          THEN ProcOwnPending(csS, c, e, g, recEpoch)
          ELSE ProcOwnEcho(csS, c, e, g)
-    ELSE IF E.kind = "app"
-    THEN IF e \in gsS.consumed \/ E.author \notin GS(g, E.parent).members
-         THEN FailUnprocessable(csS, e, g, recEpoch)                            \* generation already used
-         ELSE ProcApp([csS EXCEPT !.g[g].consumed = @ \cup {e}], c, e, g, recEpoch, nm)
-    ELSE IF E.author \notin MlsState(csS, g).members
-    THEN FailUnprocessable(csS, e, g, recEpoch)
-    ELSE IF E.kind = "prop" THEN ProcProposal(csS, c, e, g, recEpoch, nm)
+    ELSE IF e \in gsS.consumed \/ E.author \notin GS(g, E.parent).members
+    THEN FailUnprocessable(csS, e, g, recEpoch)                                 \* ratchet generation already used / unknown sender
+    ELSE
+    LET csD == [csS EXCEPT !.g[g].consumed = @ \cup {e}] IN                    \* decrypting consumes the generation
+    IF E.kind = "app" THEN ProcApp(csD, c, e, g, recEpoch, nm)
+    ELSE IF E.kind = "prop" THEN ProcProposal(csD, c, e, g, recEpoch, nm)
     ELSE IF ~(E.refs \subseteq gsS.props)
-    THEN FailUnprocessable(csS, e, g, recEpoch)                                 \* unknown by-reference proposal
-    ELSE ProcCommit(csS, c, e, g, recEpoch)
+    THEN FailUnprocessable(csD, e, g, recEpoch)                                 \* unknown by-reference proposal
+    ELSE ProcCommit(csD, c, e, g, recEpoch)
 
 -----------------------------------------------------------------------------
 (* Packing / unpacking one client's state                                   *)
@@ -379,7 +386,10 @@ InitState == [ ginfo |-> [g \in Groups |-> NoGInfo],
                snapq |-> [c \in Clients |-> [g \in Groups |-> <<>>]],
                hyd   |-> [c \in Clients |-> {}],
                withdrawn |-> {},
-               hist  |-> [mergedNoSnap |-> {}, lastRes |-> "", notifs |-> <<>>, late |-> {}, tried |-> {}, q |-> FALSE] ]
+               wl    |-> <<>>,
+               welc  |-> [c \in Clients |-> <<>>],
+               pwelc |-> [c \in Clients |-> <<>>],
+               hist  |-> [mergedNoSnap |-> {}, lastRes |-> "", notifs |-> <<>>, late |-> {}, tried |-> {}, q |-> FALSE, aheadOfRefs |-> {}] ]
 
 Init ==
     /\ ginfo = InitState.ginfo
@@ -390,6 +400,7 @@ Init ==
     /\ snapq = InitState.snapq
     /\ hyd = InitState.hyd
     /\ withdrawn = InitState.withdrawn
+    /\ wl = InitState.wl /\ welc = InitState.welc /\ pwelc = InitState.pwelc
     /\ hist = InitState.hist
 
 Reset ==
@@ -401,6 +412,7 @@ Reset ==
     /\ snapq' = InitState.snapq
     /\ hyd' = InitState.hyd
     /\ withdrawn' = InitState.withdrawn
+    /\ wl' = InitState.wl /\ welc' = InitState.welc /\ pwelc' = InitState.pwelc
     /\ hist' = InitState.hist
 
 \* create_group + every invited member processes and accepts its welcome (one composite step)
@@ -415,7 +427,7 @@ CreateGroup(c, g, members, admins, nid, base) ==
            /\ cl' = [x \in Clients |-> IF x = c THEN [cl[x] EXCEPT ![g] = gs(FALSE)]
                                        ELSE IF x \in members THEN [cl[x] EXCEPT ![g] = gs(TRUE)]
                                        ELSE cl[x]]
-    /\ UNCHANGED <<ev, proc, msgs, snapq, hyd, withdrawn, hist>>
+    /\ UNCHANGED <<ev, proc, msgs, snapq, hyd, withdrawn, wl, welc, pwelc, hist>>
 
 \* add_members / remove_members / update_group_data / self_update: build a pending commit
 CanCommit(c, g) == /\ Created(g)
@@ -432,12 +444,14 @@ NewCommit(c, g, kind, arg, nm) ==
 CommitAllowed(c, g, kind, arg) ==
     LET s == GS(g, cl[c][g].chain) IN
     /\ c \in s.members
+    /\ c \notin PropRemoves(cl[c][g].props)      \* a committer cannot commit its own removal
     /\ kind # "self_update" => c \in s.admins
     /\ kind = "remove" => arg # {} /\ arg \subseteq s.members /\ c \notin arg
     /\ kind = "add" => arg # {} /\ arg \cap s.members = {}
     /\ kind = "admins" => arg # {} /\ arg \subseteq s.members
 
-DoCommit(c, g, kind, arg, nm) ==
+\* wn: function from each added user to the name of the welcome produced for it
+DoCommit(c, g, kind, arg, nm, wn) ==
     /\ CanCommit(c, g)
     /\ CommitAllowed(c, g, kind, arg)
     /\ nm.name \notin DOMAIN ev
@@ -446,8 +460,13 @@ DoCommit(c, g, kind, arg, nm) ==
            cs1 == [cs0 EXCEPT !.g[g] = PutSecret(@, EpochOf(g, @.chain), @.chain),   \* build_message_event exports
                               !.g[g].pend = nm.name, !.out = <<E>>]
            cs2 == [cs1 EXCEPT !.proc = (nm.name :> [state |-> "processed_commit", epoch |-> EpochOf(g, cl[c][g].chain), g |-> g]) @@ @]
-       IN Install(c, cs2)
-    /\ UNCHANGED <<ginfo, hyd, withdrawn, hist>>
+       IN /\ Install(c, cs2)
+          /\ wl' = IF kind = "add"
+                    THEN wl @@ [w \in {wn[u] : u \in arg} |->
+                                  [g |-> g, to |-> CHOOSE u \in arg : wn[u] = w, chain |-> Append(cl[c][g].chain, nm.name),
+                                   commit |-> nm.name, inviter |-> c]]
+                    ELSE wl
+    /\ UNCHANGED <<ginfo, hyd, withdrawn, welc, pwelc, hist>>
 
 \* merge_pending_commit: no snapshot, no exporter secret, no dedup record.
 \* Without a pending commit it is a no-op that still re-syncs the record.
@@ -459,7 +478,7 @@ MergePending(c, g) ==
            cs3 == IF k # NoE /\ ev[k].eff.kind = "self_update" /\ ev[k].refs = {} THEN [cs2 EXCEPT !.g[g].rec.su = FALSE] ELSE cs2
        IN  /\ Install(c, cs3)
            /\ hist' = IF k = NoE THEN hist ELSE [hist EXCEPT !.mergedNoSnap = @ \cup {<<c, k>>}]
-    /\ UNCHANGED <<ginfo, hyd, withdrawn>>
+    /\ UNCHANGED <<ginfo, hyd, withdrawn, wl, welc, pwelc>>
 
 \* clear_pending_commit is for a commit whose publication failed: the event is withdrawn
 ClearPending(c, g) ==
@@ -467,13 +486,16 @@ ClearPending(c, g) ==
     /\ \A x \in Clients : <<x, cl[c][g].pend>> \notin hist.tried
     /\ Install(c, [CS(c) EXCEPT !.g[g].pend = NoE])
     /\ withdrawn' = IF cl[c][g].pend = NoE THEN withdrawn ELSE withdrawn \cup {cl[c][g].pend}
-    /\ UNCHANGED <<ginfo, hyd, hist>>
+    /\ UNCHANGED <<ginfo, hyd, wl, welc, pwelc, hist>>
 
 \* create_message
+CanSend(c, g) == /\ Created(g) /\ cl[c][g].mls = "ok"
+                 /\ c \in GS(g, cl[c][g].chain).members
+                 /\ cl[c][g].props = {}            \* OpenMLS refuses while proposals are queued
+
 SendMessage(c, g, nm, m) ==
-    /\ Created(g) /\ cl[c][g].mls = "ok"
+    /\ CanSend(c, g)
     /\ nm.name \notin DOMAIN ev
-    /\ c \in GS(g, cl[c][g].chain).members
     /\ LET gs == cl[c][g]
            cur == EpochOf(g, gs.chain)
            E == [name |-> nm.name, kind |-> "app", g |-> g, author |-> c, parent |-> gs.chain,
@@ -485,21 +507,73 @@ SendMessage(c, g, nm, m) ==
                               !.msgs = (<<g, m.id>> :> rowm) @@ @]
            cs2 == SetProc(cs1, nm.name, "created", g, cur)
        IN  Install(c, UpdateLast(cs2, g, m.id, rowm))
-    /\ UNCHANGED <<ginfo, hyd, withdrawn, hist>>
+    /\ UNCHANGED <<ginfo, hyd, withdrawn, wl, welc, pwelc, hist>>
 
 \* leave_group: a self-remove proposal (recorded with state ProcessedCommit, as the code does)
+CanLeave(c, g) == /\ Created(g) /\ cl[c][g].mls = "ok"
+                  /\ c \in GS(g, cl[c][g].chain).members
+                  /\ cl[c][g].pend = NoE           \* MLS group must be operational (no pending commit)
+
 Leave(c, g, nm) ==
-    /\ Created(g) /\ cl[c][g].mls = "ok"
+    /\ CanLeave(c, g)
     /\ nm.name \notin DOMAIN ev
-    /\ c \in GS(g, cl[c][g].chain).members
     /\ LET gs == cl[c][g]
            cur == EpochOf(g, gs.chain)
            E == [name |-> nm.name, kind |-> "prop", g |-> g, author |-> c, parent |-> gs.chain,
                  ts |-> nm.ts, rank |-> nm.rank, tag |-> gs.rec.data.nid, pkind |-> "leave", target |-> c]
            cs0 == CS(c)
-           cs1 == [cs0 EXCEPT !.g[g] = PutSecret(@, cur, gs.chain), !.out = <<E>>]
+           cs1 == [cs0 EXCEPT !.g[g] = PutSecret(@, cur, gs.chain), !.out = <<E>>,
+                              !.g[g].props = @ \cup {[a |-> c, k |-> "leave", t |-> c]}]   \* MLS queues the own proposal too
        IN  Install(c, SetProc(cs1, nm.name, "processed_commit", g, cur))
-    /\ UNCHANGED <<ginfo, hyd, withdrawn, hist>>
+    /\ UNCHANGED <<ginfo, hyd, withdrawn, wl, welc, pwelc, hist>>
+
+-----------------------------------------------------------------------------
+(* Welcomes (welcomes.rs)                                                   *)
+
+WelcOf(c, w) == IF w \in DOMAIN welc[c] THEN welc[c][w] ELSE "none"
+PWelcOf(c, w) == IF w \in DOMAIN pwelc[c] THEN pwelc[c][w] ELSE "none"
+
+\* the welcome can be staged by c: it was encrypted to one of c's key packages
+CanStage(c, w) == wl[w].to = c
+
+\* process_welcome: result class "Ok" | "Err"
+ProcessWelcomeRes(c, w) ==
+    IF PWelcOf(c, w) = "failed" THEN "Err"
+    ELSE IF PWelcOf(c, w) = "processed" THEN (IF WelcOf(c, w) # "none" THEN "Ok" ELSE "Err")
+    ELSE IF CanStage(c, w) THEN "Ok" ELSE "Err"
+
+ProcessWelcome(c, w) ==
+    /\ w \in DOMAIN wl
+    /\ LET g == wl[w].g IN
+       IF PWelcOf(c, w) # "none" THEN UNCHANGED <<cl, welc, pwelc>>
+       ELSE IF ~CanStage(c, w)
+       THEN /\ pwelc' = [pwelc EXCEPT ![c] = (w :> "failed") @@ @]
+            /\ UNCHANGED <<cl, welc>>
+       ELSE \* saves a Pending group record (overwriting whatever record exists for that MLS group id)
+            /\ cl' = [cl EXCEPT ![c][g].rec = [st |-> "pending", epoch |-> EpochOf(g, wl[w].chain),
+                                               data |-> GS(g, wl[w].chain), last |-> NoE, su |-> TRUE]]
+            /\ pwelc' = [pwelc EXCEPT ![c] = (w :> "processed") @@ @]
+            /\ welc' = [welc EXCEPT ![c] = (w :> "pending") @@ @]
+    /\ hist' = [hist EXCEPT !.lastRes = ProcessWelcomeRes(c, w)]
+    /\ UNCHANGED <<ginfo, ev, proc, msgs, snapq, hyd, withdrawn, wl>>
+
+\* accept_welcome on a stored welcome: joins at the inviter's post-commit state
+AcceptWelcome(c, w) ==
+    /\ w \in DOMAIN wl /\ WelcOf(c, w) # "none" /\ CanStage(c, w)
+    /\ LET g == wl[w].g IN
+       /\ cl' = [cl EXCEPT ![c][g] = [@ EXCEPT !.mls = "ok", !.chain = wl[w].chain, !.pend = NoE, !.props = {},
+                                              !.past = <<>>, !.consumed = {},
+                                              !.rec = IF @.rec.st = "none" THEN @.rec
+                                                      ELSE [@.rec EXCEPT !.st = "active", !.su = TRUE]]]
+       /\ welc' = [welc EXCEPT ![c][w] = "accepted"]
+    /\ UNCHANGED <<ginfo, ev, proc, msgs, snapq, hyd, withdrawn, wl, pwelc, hist>>
+
+DeclineWelcome(c, w) ==
+    /\ w \in DOMAIN wl /\ WelcOf(c, w) # "none" /\ CanStage(c, w)
+    /\ LET g == wl[w].g IN
+       /\ cl' = [cl EXCEPT ![c][g].rec = IF @.st = "none" THEN @ ELSE [@ EXCEPT !.st = "inactive"]]
+       /\ welc' = [welc EXCEPT ![c][w] = "declined"]
+    /\ UNCHANGED <<ginfo, ev, proc, msgs, snapq, hyd, withdrawn, wl, pwelc, hist>>
 
 \* at the moment of a first hand-over: is the event outside the configured windows?
 OutsideWindow(c, e) ==
@@ -518,13 +592,16 @@ Deliver(c, e, nm) ==
        IN  /\ Install(c, r.cs)
            /\ hist' = [hist EXCEPT !.lastRes = r.res, !.notifs = r.cs.notif,
                                    !.tried = @ \cup {<<c, e>>},
-                                   !.late = IF <<c, e>> \notin hist.tried /\ OutsideWindow(c, e) THEN @ \cup {<<c, e>>} ELSE @]
-    /\ UNCHANGED <<ginfo, hyd, withdrawn>>
+                                   !.late = IF <<c, e>> \notin hist.tried /\ OutsideWindow(c, e) THEN @ \cup {<<c, e>>} ELSE @,
+                                   !.aheadOfRefs = IF ev[e].kind = "commit" /\ ~(ev[e].refs \subseteq cl[c][g0].props)
+                                                      /\ ev[e].parent = cl[c][g0].chain
+                                                   THEN @ \cup {<<c, e>>} ELSE @]
+    /\ UNCHANGED <<ginfo, hyd, withdrawn, wl, welc, pwelc>>
 
 \* the driver declares that every event has been re-offered until nothing changed
 Quiesce ==
     /\ hist' = [hist EXCEPT !.q = TRUE]
-    /\ UNCHANGED <<ginfo, ev, cl, proc, msgs, snapq, hyd, withdrawn>>
+    /\ UNCHANGED <<ginfo, ev, cl, proc, msgs, snapq, hyd, withdrawn, wl, welc, pwelc>>
 
 -----------------------------------------------------------------------------
 (* Properties                                                               *)
@@ -563,11 +640,43 @@ Excused_MergeNoSnapshot(c, g) ==
     /\ n < Len(ch)
     /\ <<c, ch[n + 1]>> \in hist.mergedNoSnap
 
+\* finding C01-CommitBeforeProposal: the next winner commit c needs covers a proposal by reference and was
+\* handed to c before that proposal; it was recorded Failed and is never retried
+NextNeeded(c, g) == LET n == CommonPrefixLen(cl[c][g].chain, Winner(g), 0) IN
+                    IF n < Len(Winner(g)) THEN Winner(g)[n + 1] ELSE NoE
+Excused_CommitBeforeProposal(c, g) ==
+    LET k == NextNeeded(c, g) IN
+    /\ "FailedNeverRetried" \in Dev
+    /\ k # NoE /\ <<c, k>> \in hist.aheadOfRefs
+    /\ k \in DOMAIN proc[c] /\ proc[c][k].state = "failed"
+
+\* finding RotationDropsInFlight: events tagged with a nostr group id that is no longer in force at c
+\* find no group; they are recorded Failed without a group and never retried
+Excused_RotationCommit(c, g) ==
+    LET k == NextNeeded(c, g) IN
+    /\ "RotationDropsInFlight" \in Dev
+    /\ k # NoE /\ ev[k].tag # cl[c][g].rec.data.nid
+Excused_RotationMsg(c, e) ==
+    /\ "RotationDropsInFlight" \in Dev
+    /\ ev[e].tag # cl[c][ev[e].g].rec.data.nid
+    /\ e \in DOMAIN proc[c] /\ proc[c][e].state = "failed"
+
+\* finding EvictedNeverRecovers: a member removed by a commit that later loses the MIP-03 race cannot
+\* export a secret any more, so the better commit cannot even be unwrapped and the rollback never happens
+Excused_Evicted(c, g) == "EvictedNeverRecovers" \in Dev /\ cl[c][g].mls = "evicted"
+
 C01_Plain == \A g \in Groups : Created(g) => \A c \in Remaining(g) : InScope(c, g) => ConvergedAt(c, g)
 C01_Ex(pr) == \A g \in Groups : Created(g) => \A c \in Remaining(g) :
                   InScope(c, g) => \/ ConvergedAt(c, g)
                                    \/ /\ Excused_MergeNoSnapshot(c, g)
                                       /\ pr => PrintT(<<"KNOWN-FINDING", "C01", "MergeNoSnapshot", c, g>>)
+                                   \/ /\ Excused_CommitBeforeProposal(c, g)
+                                      /\ pr => PrintT(<<"KNOWN-FINDING", "C01", "CommitBeforeProposal", c, g>>)
+                                   \/ /\ Excused_Evicted(c, g)
+                                      /\ pr => PrintT(<<"KNOWN-FINDING", "C01", "EvictedNeverRecovers", c, g>>)
+                                   \/ /\ Excused_RotationCommit(c, g)
+                                      /\ pr => PrintT(<<"KNOWN-FINDING", "C01", "RotationDropsInFlight", c, g>>)
+                                   \/ (pr /\ PrintT("VIOLATION-DETAIL " \o ToString(<<"C01 not converged", c, cl[c][g].chain, "winner", Winner(g)>>)) /\ FALSE)
 C01_Excused == C01_Ex(TRUE)
 C01_ExcusedQuiet == C01_Ex(FALSE)
 
@@ -596,8 +705,12 @@ C02_Ex(pr) ==
                 /\ msgs[c][k].w = e
              \/ /\ Excused_AppFiledUnderReceiverEpoch(c, e)
                 /\ pr => PrintT(<<"KNOWN-FINDING", "C02", "AppFiledUnderReceiverEpoch", c, e>>)
+             \/ /\ Excused_RotationMsg(c, e)
+                /\ pr => PrintT(<<"KNOWN-FINDING", "C02", "RotationDropsInFlight", c, e>>)
+             \/ (pr /\ PrintT("VIOLATION-DETAIL " \o ToString(<<"C02 winning-branch message not stored valid", c, e, IF k \in DOMAIN msgs[c] THEN msgs[c][k].state ELSE "absent">>)) /\ FALSE)
        /\ (~OnWinner(g, ev[e].parent) /\ ConvergedAt(c, g) /\ k \in DOMAIN msgs[c])
-          => msgs[c][k].state \notin {"processed", "created"}
+          => \/ msgs[c][k].state \notin {"processed", "created"}
+             \/ (pr /\ PrintT("VIOLATION-DETAIL " \o ToString(<<"C02 losing-branch message left valid", c, e, msgs[c][k].state>>)) /\ FALSE)
 C02_Excused == C02_Ex(TRUE)
 C02_ExcusedQuiet == C02_Ex(FALSE)
 
@@ -607,8 +720,11 @@ C02_ContentImmutable ==
         k \in DOMAIN msgs'[c] /\ msgs'[c][k].author = msgs[c][k].author /\ msgs'[c][k].content = msgs[c][k].content
 
 \* --- C07: re-delivering an event that has already taken effect changes nothing observable ---
+\* (the listed observables: epoch, MLS state, member set, group data, pending proposals, stored messages;
+\*  the last-message pointer and the self-update flag are not among them)
 ObsOf(c) == [g |-> [g \in Groups |-> [chain |-> cl[c][g].chain, pend |-> cl[c][g].pend, props |-> cl[c][g].props,
-                                       rec |-> cl[c][g].rec, mls |-> cl[c][g].mls]],
+                                       rst |-> cl[c][g].rec.st, repoch |-> cl[c][g].rec.epoch, rdata |-> cl[c][g].rec.data,
+                                       mls |-> cl[c][g].mls]],
              msgs |-> [k \in DOMAIN msgs[c] |-> [state |-> msgs[c][k].state, author |-> msgs[c][k].author, content |-> msgs[c][k].content]]]
 
 Handled(c, e) ==
@@ -616,7 +732,7 @@ Handled(c, e) ==
         r == IF e \in DOMAIN proc[c] THEN proc[c][e] ELSE NoProc IN
     \/ \E i \in DOMAIN cl[c][g].chain : cl[c][g].chain[i] = e           \* applied commit
     \/ r.state = "epoch_invalidated"                                     \* superseded commit / message
-    \/ e \in cl[c][g].props                                              \* queued proposal
+    \/ ev[e].kind = "prop" /\ Pid(e) \in cl[c][g].props /\ r.state = "processed"   \* queued proposal
     \/ /\ ev[e].kind = "app"
        /\ <<g, ev[e].msg.id>> \in DOMAIN msgs[c]
        /\ msgs[c][<<g, ev[e].msg.id>>].state = "processed"
